@@ -178,6 +178,12 @@ impl<'a, 'b> Rewriter<'a, 'b> {
             }
             out.push_str(&self.fx.src[pos..e.lo]);
             out.push_str(&e.text);
+            // keep the line structure of the source: pad with the newlines the edit removed
+            let removed = self.fx.src[e.lo..e.hi].matches('\n').count();
+            let added = e.text.matches('\n').count();
+            for _ in added..removed {
+                out.push('\n');
+            }
             pos = e.hi;
         }
         out.push_str(&self.fx.src[pos..hi]);
@@ -239,7 +245,7 @@ impl<'a, 'b> Rewriter<'a, 'b> {
         } else {
             return false;
         };
-        let n = self.fresh();
+        let n = self.loops.len();
         let (it, ik) = (format!("it__{}", n), format!("ik__{}", n));
         let (elo, ehi) = self.fx.rng(mc.span());
         let (rlo, rhi) = self.fx.rng(recv.span());
@@ -268,13 +274,13 @@ impl<'a, 'b> Rewriter<'a, 'b> {
             let (b2lo, b2hi) = self.fx.rng(c2.body.span());
             self.edit(elo, b1lo, format!("{}let {} = ", head, p2), "R7");
             self.edit(b1hi, b2lo, "; ".to_string(), "R7");
-            self.edit(b2hi, ehi, "; } }".to_string(), "R7");
+            self.edit(b2hi, ehi, format!("; /*@LOOPEND:{}*/}} }}", n), "R7");
             self.visit_expr(&c1.body);
             self.visit_expr(&c2.body);
         } else {
             let (b2lo, b2hi) = self.fx.rng(c2.body.span());
             self.edit(elo, b2lo, head, "R7");
-            self.edit(b2hi, ehi, "; } }".to_string(), "R7");
+            self.edit(b2hi, ehi, format!("; /*@LOOPEND:{}*/}} }}", n), "R7");
             self.visit_expr(&c2.body);
         }
         true
@@ -305,7 +311,7 @@ impl<'a, 'b> Rewriter<'a, 'b> {
         } else {
             return false;
         };
-        let n = self.fresh();
+        let n = self.loops.len();
         let elem = elem.replace("__N", &format!("__{}", n));
         let (elo, ehi) = self.fx.rng(mc.span());
         let (blo, bhi) = self.fx.rng(c.body.span());
@@ -320,14 +326,14 @@ impl<'a, 'b> Rewriter<'a, 'b> {
                 it = it, recv = recv_txt, ik = ik, fl = fl, marker = marker, elem = elem
             );
             self.edit(elo, blo, head, "R7");
-            self.edit(bhi, ehi, format!(" {{ {fl} = Some(&{it}[{ik}]); }} {ik} += 1; }} {fl} }}", fl = fl, it = it, ik = ik), "R7");
+            self.edit(bhi, ehi, format!(" {{ {fl} = Some(&{it}[{ik}]); }} {ik} += 1; /*@LOOPEND:{n}*/}} {fl} }}", fl = fl, it = it, ik = ik, n = n), "R7");
         } else {
             let head = format!(
                 "{{ let {it} = &({recv}); let mut {ik}: usize = 0; let mut {fl} = false; while {ik} < {it}.len() && !{fl} {marker}{{ {elem} if ",
                 it = it, recv = recv_txt, ik = ik, fl = fl, marker = marker, elem = elem
             );
             self.edit(elo, blo, head, "R7");
-            self.edit(bhi, ehi, format!(" {{ {fl} = true; }} {ik} += 1; }} {fl} }}", fl = fl, ik = ik), "R7");
+            self.edit(bhi, ehi, format!(" {{ {fl} = true; }} {ik} += 1; /*@LOOPEND:{n}*/}} {fl} }}", fl = fl, ik = ik, n = n), "R7");
         }
         self.visit_expr(&c.body);
         true
@@ -456,8 +462,10 @@ impl<'a, 'b> Rewriter<'a, 'b> {
         self.strip_attrs(&f.attrs);
         // range: leave
         if matches!(&*f.expr, Expr::Range(_)) {
+            let n = self.loops.len();
             let m = self.new_loop(hdr, line);
             self.edit(blo, blo, m, "M");
+            self.edit(bhi - 1, bhi - 1, format!("/*@LOOPEND:{}*/", n), "M");
             self.visit_block(&f.body);
             return;
         }
@@ -470,13 +478,14 @@ impl<'a, 'b> Rewriter<'a, 'b> {
                             let a = self.simple_pat(&pt.elems[0]);
                             let b = self.simple_pat(&pt.elems[1]);
                             if let (Some((pa, 0)), Some((pb, 0))) = (a, b) {
-                                let n = self.fresh();
+                                let n = self.loops.len();
                                 let m = self.new_loop(hdr.clone(), line);
                                 let txt = format!(
                                     "{{ let zx__{n} = {x}; let zy__{n} = {y}; let zn__{n} = if zx__{n}.len() < zy__{n}.len() {{ zx__{n}.len() }} else {{ zy__{n}.len() }}; for zk__{n} in 0..zn__{n} {m}{{ let {pa} = &zx__{n}[zk__{n}]; let {pb} = &zy__{n}[zk__{n}]; ",
                                     n = n, x = self.fx.text(c.args[0].span()), y = self.fx.text(c.args[1].span()), m = m, pa = pa, pb = pb
                                 );
                                 self.edit(for_lo, blo + 1, txt, "R7");
+                                self.edit(bhi - 1, bhi - 1, format!("/*@LOOPEND:{}*/", n), "M");
                                 self.edit(bhi, bhi, " }".to_string(), "R7");
                                 self.visit_block(&f.body);
                                 return;
@@ -494,7 +503,7 @@ impl<'a, 'b> Rewriter<'a, 'b> {
                     if body_txt.contains("continue") {
                         self.errors.push(format!("line {}: chunks_exact body contains continue", line));
                     }
-                    let n = self.fresh();
+                    let n = self.loops.len();
                     let m = self.new_loop(hdr.clone(), line);
                     let w = self.fx.text(mc.args[0].span());
                     let txt = format!(
@@ -502,7 +511,7 @@ impl<'a, 'b> Rewriter<'a, 'b> {
                         n = n, x = self.fx.text(mc.receiver.span()), w = w, m = m, p = p
                     );
                     self.edit(for_lo, blo + 1, txt, "R7");
-                    self.edit(bhi - 1, bhi, format!("; ck__{n} += 1; }} }}", n = n), "R7");
+                    self.edit(bhi - 1, bhi, format!("; ck__{n} += 1; /*@LOOPEND:{n}*/}} }}", n = n), "R7");
                     self.visit_block(&f.body);
                     return;
                 }
@@ -513,7 +522,7 @@ impl<'a, 'b> Rewriter<'a, 'b> {
             let e = self.iter_receiver(&f.expr).unwrap_or(&f.expr);
             let plain = matches!(e, Expr::Path(_) | Expr::Field(_) | Expr::Reference(_) | Expr::Paren(_));
             if plain && d <= 1 {
-                let n = self.fresh();
+                let n = self.loops.len();
                 let m = self.new_loop(hdr.clone(), line);
                 let elem = if d == 0 { format!("let {} = &it__{}[ik__{}];", p, n, n) } else { format!("let {} = it__{}[ik__{}];", p, n, n) };
                 let txt = format!(
@@ -521,6 +530,7 @@ impl<'a, 'b> Rewriter<'a, 'b> {
                     n = n, x = self.fx.text(e.span()), m = m, elem = elem
                 );
                 self.edit(for_lo, blo + 1, txt, "R4");
+                self.edit(bhi - 1, bhi - 1, format!("/*@LOOPEND:{}*/", n), "M");
                 self.edit(bhi, bhi, " }".to_string(), "R4");
                 self.visit_block(&f.body);
                 return;
@@ -666,15 +676,21 @@ impl<'a, 'b, 'ast> Visit<'ast> for Rewriter<'a, 'b> {
                 let (wlo, _) = self.fx.rng(w.while_token.span());
                 let (blo, _bhi) = self.fx.rng(w.body.span());
                 let hdr = self.fx.src[wlo..blo].to_string();
+                let n = self.loops.len();
                 let m = self.new_loop(hdr, self.fx.line_of(wlo));
                 self.edit(blo, blo, m, "M");
+                let bhi = self.fx.rng(w.body.span()).1;
+                self.edit(bhi - 1, bhi - 1, format!("/*@LOOPEND:{}*/", n), "M");
                 visit::visit_expr(self, e);
             }
             Expr::Loop(l) => {
                 let (llo, _) = self.fx.rng(l.loop_token.span());
                 let (blo, _bhi) = self.fx.rng(l.body.span());
+                let n = self.loops.len();
                 let m = self.new_loop("loop".to_string(), self.fx.line_of(llo));
                 self.edit(blo, blo, m, "M");
+                let bhi = self.fx.rng(l.body.span()).1;
+                self.edit(bhi - 1, bhi - 1, format!("/*@LOOPEND:{}*/", n), "M");
                 visit::visit_expr(self, e);
             }
             Expr::Binary(b) if self.fx.ops => {
